@@ -68,7 +68,8 @@ class C19(object):
     required_counters = ('synthetic.judged', 'solve.judged', 'cells.compared', 'synthetic.rerendered_after_dict_op', 'model.judged',
                          'solve.horizon_set_on_solver',
                          'logfile.judged',
-                         'logfile.after_a_model_that_failed_inside_main')
+                         'logfile.after_a_model_that_failed_inside_main',
+                         'table_after_failed_series_lookups.judged')
 
     def n_cases(self, tier):
         return 40 if tier == 'quick' else 4000
@@ -86,7 +87,7 @@ class C19(object):
         if idx % 4 == 3:
             spec = G.gen_affine(rng, rho=rng.choice([0.2, 0.5]), tol=1e-8)
             case = {'kind': 'solve', 'spec': spec, 'text': G.render(spec), 'fmt': rng.choice(['%.5g', '%.12e', '%r']),
-                    'reduction': rng.random() < 0.5, 'solver_horizon': None}
+                    'reduction': rng.random() < 0.5, 'solver_horizon': None, 'probe_missing': (idx // 8) % 2 == 1}
             if (idx // 4) % 2 == 0:
                 # the horizon is set on the solver (as Model does); the block's own MaxTime line says something else
                 case['solver_horizon'] = rng.choice([0, 0, 1, 2, spec['maxtime']])
@@ -267,9 +268,21 @@ class C19(object):
             if b.error is not None:
                 return {'verdict': 'notjudged', 'shape': 'model|' + type(b.error).__name__}
             solver = b.model.EquationSolver
+            stored = sorted(solver.TimeSeries.keys())
+            # the caller probes an optional series (or mistypes a name) before asking for the table
+            for probe in (lambda: b.model.GetTimeSeries('NO_SUCH__SERIES'), lambda: solver.TimeSeries['optional_x'],
+                          lambda: b.model.GetTimeSeries('HH__NOPE', cutoff=2)):
+                try:
+                    probe()
+                except Exception:
+                    pass
+            rec.count('table_after_failed_series_lookups.judged')
             text = solver.GenerateCSVtext(case['fmt'])
             rec.count('solve.judged')
             rec.count('model.judged')
+            if sorted(monitors.parse_table(text)[0]) != stored:
+                rec.violate('series_not_named_once', {'series_stored_by_the_solve': stored[:12], 'header': monitors.parse_table(text)[0][:12],
+                                                      'history': 'names that do not exist were looked up (and the errors caught) before the table was generated'})
             gh, grows = monitors.parse_table(text)
             horizon = case['mspec']['maxtime']
             if len(grows) != horizon + 1:
@@ -293,9 +306,20 @@ class C19(object):
                 solver.SolveEquation()
         except ValueError as e:
             return {'verdict': 'notjudged', 'shape': 'solve|' + type(e).__name__, 'counters': rec.counters}
+        stored = sorted(solver.TimeSeries.keys())
+        if case.get('probe_missing'):
+            for nm in ('optional_x', 'LAG_nope', 'K'):
+                try:
+                    solver.TimeSeries[nm]
+                except Exception:
+                    pass
+            rec.count('table_after_failed_series_lookups.judged')
         text = solver.GenerateCSVtext(case['fmt'])
         rec.count('solve.judged')
         gh, grows = monitors.parse_table(text)
+        if sorted(gh) != stored:
+            rec.violate('series_not_named_once', {'series_stored_by_the_solve': stored, 'header': gh,
+                                                  'failed_lookups_before_the_table': bool(case.get('probe_missing'))})
         horizon = case['spec']['maxtime']
         if case.get('solver_horizon') is not None and case['solver_horizon'] <= horizon:
             horizon = case['solver_horizon']
